@@ -87,7 +87,7 @@ def _pct_locked(c, exe, pre, summ):
 
 def write_cfg(name, T, n, S, d, sp, spec, invariants, props, fair):
     txt = ("CONSTANTS T = %d  N = %d  S = %d  Dir = \"%s\"  EofPeek = TRUE  Pad = 5\n"
-           "  Gate = TRUE  NotifyReady = TRUE  NotifyUpdate = TRUE  WaitLoop = TRUE  ReadyTest = TRUE  Spurious = %s\n"
+           "  Gate = TRUE  NotifyReady = TRUE  NotifyUpdate = TRUE  WaitLoop = TRUE  ReadyTest = TRUE  Spurious = %s  Unbounded = FALSE\n"
            "  Loads <- MCLoads  DecPad <- MCDecPad\nSPECIFICATION %s\n" % (T, n, S, d, "TRUE" if sp else "FALSE", spec))
     if invariants:
         txt += "INVARIANTS " + invariants + "\n"
